@@ -695,6 +695,19 @@ func TestC12(t *testing.T) {
 			// corpus: the findings
 			if kindClass(kind) == "split" {
 				cases = append(cases, tc{kind, []byte("abc\ndef")}, tc{kind, []byte("abc\xffde\xc3\xbf")}, tc{kind, []byte("\xc3\xbf")})
+				// a long final record cut off by the end of the stream (longer than the reader's buffer, so
+				// that it was accumulated over several reads), alone and after complete records
+				var d int
+				fmt.Sscan(kind[6:], &d)
+				for _, n := range []int{4095, 4096, 4097, 5000, 8192, 9000, 20000} {
+					long := bytes.Repeat([]byte{'a' + byte(n%7)}, n)
+					for i := range long {
+						if long[i] == byte(d) {
+							long[i] = 'z'
+						}
+					}
+					cases = append(cases, tc{kind, long}, tc{kind, append(append([]byte("first"), byte(d)), long...)})
+				}
 			}
 			if kindClass(kind) == "hdr" {
 				// the configured media type spelled exactly, lower-cased and upper-cased
